@@ -19,10 +19,10 @@ ID = "C08"
 LEVEL = "exploration"
 DESIGN_REF = "DESIGN.md §3.2, §4 C08"
 RULE = (
-    "cases = (native sequence of 1-10 records over {MOVED_FROM c, MOVED_TO c, CREATE, DELETE, MODIFY, sub-watch IGNORED} "
+    "cases = (native sequence of 1-10 records over {MOVED_FROM c, MOVED_TO c, CREATE, DELETE, MODIFY, nameless ATTRIB of a watched directory itself, sub-watch IGNORED} "
     "x file/dir, each cookie on at most one FROM and one TO incl. swapped order; batches [(gap, number of records)] with "
     "gaps from {0, d/2, d-eps, d, d+eps, 2d}; records-per-read cuts; consumer think time; optional early close; "
-    "schedule).  Exhaustive: DFS with <= k preemptions (k=1 quick, 2 thorough) over 9 fixed programs with line points in "
+    "schedule).  Exhaustive: DFS with <= k preemptions (k=1 quick, 2 thorough) over 10 fixed programs with line points in "
     "inotify_buffer.py and delayed_queue.py, and every cut of every sequence of length <= 4 (quick) / 5 (thorough) over a "
     "reduced alphabet under the default schedule; random: Hypothesis programs x random schedules.  non-trivial = a pair "
     "split across two batches, or a gap within eps of d, or a preemption taken inside the buffer/queue code; distinct = "
@@ -65,7 +65,7 @@ def make_main(prog):
                 if isinstance(e, tuple):
                     s.record("pair", (e[0].name, e[1].name, t))
                 else:
-                    s.record("single", (e.name, t))
+                    s.record("single", (e.name or b"@" + e.src_path, t))  # nameless events: identified by their watch path
                 if prog["think"]:
                     tm.sleep(prog["think"])
 
@@ -78,9 +78,13 @@ def make_main(prog):
                 tm.sleep(gap)
             for r in recs[i : i + n]:
                 kind, cookie, isdir, idx = r
-                mask = {"FROM": sk.IN_MOVED_FROM, "TO": sk.IN_MOVED_TO, "CREATE": sk.IN_CREATE, "DELETE": sk.IN_DELETE, "MODIFY": sk.IN_MODIFY, "IGNORED": sk.IN_IGNORED}[kind]
+                mask = {"FROM": sk.IN_MOVED_FROM, "TO": sk.IN_MOVED_TO, "CREATE": sk.IN_CREATE, "DELETE": sk.IN_DELETE, "MODIFY": sk.IN_MODIFY, "IGNORED": sk.IN_IGNORED,
+                        "SELFROOT": sk.IN_ATTRIB | sk.IN_ISDIR, "SELFSUB": sk.IN_ATTRIB | sk.IN_ISDIR}[kind]
                 if kind == "IGNORED":
                     k.inject(fd, wd_sub, mask, 0, b"")
+                elif kind in ("SELFROOT", "SELFSUB"):
+                    # a nameless record: the event concerns the watched directory itself
+                    k.inject(fd, wd_root if kind == "SELFROOT" else wd_sub, mask, 0, b"")
                 else:
                     # directories are never really created in the virtual tree: keep IN_CREATE|IN_ISDIR away (it triggers a walk)
                     if isdir and kind != "CREATE":
@@ -106,7 +110,12 @@ def check(prog, r, s):
     v = harness.basic_verdict(r)
     if v:
         raise Violation(f"{v[1]} (program {prog})", v[0])
-    recs = {f"e{idx}".encode(): (kind, cookie, isdir, idx) for kind, cookie, isdir, idx in prog["records"] if kind != "IGNORED"}
+    recs = {}
+    for kind, cookie, isdir, idx in prog["records"]:
+        if kind == "IGNORED":
+            continue
+        key = {"SELFROOT": b"@" + ROOT, "SELFSUB": b"@" + ROOT + b"/sub"}.get(kind, f"e{idx}".encode())
+        recs[key] = (kind, cookie, isdir, idx)
     inj_t = {}
     delivered = []  # ("single", idx, t) | ("pair", fidx, tidx, t)
     ended = False
@@ -203,6 +212,7 @@ FIXED = [
     # the partner arrives exactly when the delay expires: reader (remove) and consumer (pop) run at the same instant
     {"records": [R("FROM", 1, False, 0), R("TO", 1, False, 1)], "batches": [(0.0, 1), (D, 1)], "think": 0, "cuts": None},
     {"records": [R("FROM", 1, True, 0), R("MODIFY", 0, False, 1), R("TO", 1, True, 2)], "batches": [(0.0, 2), (D, 1)], "think": 0, "cuts": None},
+    {"records": [R("CREATE", 0, False, 0), R("SELFROOT", 0, True, 1), R("SELFSUB", 0, True, 2)], "batches": [(0.0, 2), (0.0, 1)], "think": 0, "cuts": [1]},
 ]
 
 
@@ -212,6 +222,7 @@ def programs(draw):
     recs = []
     used_from, used_to = set(), set()
     ignored = False
+    selfs = {"root": False, "sub": False}
     for i in range(n):
         kind = draw(st.sampled_from(["FROM", "FROM", "TO", "TO", "CREATE", "DELETE", "MODIFY", "IGNORED"]))
         cookie = 0
@@ -234,6 +245,12 @@ def programs(draw):
             if ignored:
                 kind = "CREATE"
             ignored = True
+        if kind in ("CREATE", "MODIFY") and draw(st.integers(0, 3)) == 0:
+            # a nameless event about a watched directory itself (at most one per watch, never after that watch's IGNORED)
+            if not selfs["root"]:
+                kind, selfs["root"] = "SELFROOT", True
+            elif not selfs["sub"] and not ignored:
+                kind, selfs["sub"] = "SELFSUB", True
         recs.append(R(kind, cookie, draw(st.booleans()), i))
     batches = []
     left = n
@@ -255,14 +272,14 @@ def all_cuts(tier):
     import itertools
 
     L = 4 if tier == "quick" else 5
-    alpha = ["F1", "T1", "F2", "T2", "C", "I"]
+    alpha = ["F1", "T1", "F2", "T2", "C", "I", "S"]
     for n in range(1, L + 1):
         for seq in itertools.product(alpha, repeat=n):
-            if any(seq.count(x) > 1 for x in ("F1", "T1", "F2", "T2", "I")):
+            if any(seq.count(x) > 1 for x in ("F1", "T1", "F2", "T2", "I", "S")):
                 continue
             recs = []
             for i, x in enumerate(seq):
-                kind = {"F": "FROM", "T": "TO", "C": "CREATE", "I": "IGNORED"}[x[0]]
+                kind = {"F": "FROM", "T": "TO", "C": "CREATE", "I": "IGNORED", "S": "SELFROOT"}[x[0]]
                 recs.append(R(kind, int(x[1]) if len(x) > 1 else 0, False, i))
             for mask in range(2 ** (n - 1)):
                 sizes, cur = [], 1
